@@ -64,6 +64,15 @@ CastCases(from, to) ==
       P(CaseRec("cast", "Cast", <<AI("to", OnnxCode(to))>>, <<LowerT(X)>>, LowerA(s), <<Tag(s), "scalar">>))
    /\ LET X == T(from, <<2, 1, 2>>, <<vals[1], vals[2], vals[3], vals[4]>>) s == SemCast(X, to) IN
       P(CaseRec("cast", "Cast", <<AI("to", OnnxCode(to))>>, <<LowerT(X)>>, LowerA(s), <<Tag(s), "rank3">>))
+\* 64-bit integers beyond the 53-bit mantissa of a float64, as little-endian byte images: 2^53+1, 2^62+3, 2^63-1, 2^53, 2^54+2^30+1.
+\* Between the two 64-bit integer types a value both can hold keeps its bit pattern exactly.
+WideInts == <<<<1, 0, 0, 0, 0, 0, 32, 0>>, <<3, 0, 0, 0, 0, 0, 0, 64>>, <<255, 255, 255, 255, 255, 255, 255, 127>>, <<0, 0, 0, 0, 0, 0, 32, 0>>,
+              <<1, 0, 0, 64, 0, 0, 64, 0>>>>
+WideCastCases(from, to) ==
+   /\ LET X == T(from, <<Len(WideInts)>>, WideInts) IN
+      P(CaseRec("cast", "Cast", <<AI("to", OnnxCode(to))>>, <<X>>, MustValue(<<T(to, X.shape, X.data)>>), <<"value", "wide_integers", from \o "->" \o to>>))
+   /\ LET X == T(from, <<>>, <<WideInts[2]>>) IN
+      P(CaseRec("cast", "Cast", <<AI("to", OnnxCode(to))>>, <<X>>, MustValue(<<T(to, X.shape, X.data)>>), <<"value", "wide_integers", "scalar">>))
 CastInvalid(from) ==
    \A to \in {"bool", "string", "f16", "c64", "c128", "bf16", "undefined"} :
       LET X == Vec(from, <<Fin(1), Fin(0)>>) IN
@@ -80,7 +89,7 @@ Emit ==
    /\ CASE st.fam = "constant" -> ConstantCases
         [] st.fam = "cos" -> CosCases(st.shape)
         [] st.fam = "cosinvalid" -> CosInvalid
-        [] st.fam = "cast" -> CastCases(st.from, st.to)
+        [] st.fam = "cast" -> CastCases(st.from, st.to) /\ (st.from = "i64" /\ st.to = "i64" => WideCastCases("i64", "i64"))
         [] st.fam = "castinvalid" -> CastInvalid(st.from)
    /\ st' = [st EXCEPT !.done = TRUE]
 Next == Emit
